@@ -81,6 +81,18 @@ void h_assign_guard(void) {
     if (src.integral && src.pointer == 0 && dst.pointer == 0 && !removed)
         __CPROVER_assert(PRESERVES(&src, &dst, nn), "initialisation: impossible values are kept only through a value preserving conversion");
 }
+/* (a = e): the value of the assignment expression is the value stored in a - e converted to the type of a (C11 6.5.16p3) */
+void h_assign_expr(void) {
+    struct VT2 src, dst; mk_types(&src, &dst);
+    struct VValue v; v.kind = (enum VKind)nondet_int(); v.isInt = nondet_bool(); v.isSymbolic = !v.isInt && nondet_bool(); v.bound = BOUND_Point; v.intvalue = 0; __CPROVER_assume(v.kind >= K_KNOWN && v.kind <= K_IMPOSSIBLE);
+    g_assign_mode = 0;
+    assign_expr(&v, &src, &dst);
+    if (!(src.integral && src.pointer == 0 && dst.integral && dst.pointer == 0)) return;      /* other types: not decided */
+    if (v.isInt && v.kind != K_IMPOSSIBLE && !PRESERVES(&src, &dst, 0))      /* a preserving conversion may be skipped */
+        __CPROVER_assert(g_assign_mode == 2 || g_assign_mode == 0, "a known / possible integer value of the right operand reaches `=` only converted to the type of the left operand");
+    if ((v.isSymbolic || (v.isInt && v.kind == K_IMPOSSIBLE)) && g_assign_mode != 0)
+        __CPROVER_assert(g_assign_mode == 1 && PRESERVES(&src, &dst, 0), "an impossible or symbolic value reaches `=` only through a value preserving conversion");
+}
 void h_cover(void) {
     struct VT2 a, b; a.sign = Sign_SIGNED; a.pointer = 0; a.integral = 1; a.size = 4; b = a; b.size = 8;
     __CPROVER_assert(!isValuePreservingConversion(&a, &b, 0), "COVER: int -> long long preserves");
@@ -180,14 +192,39 @@ def build(ctx):
     if re.search(r'ValueFlow|settings|std::|values', extract.mask(ta)):
         raise extract.ExtractError("K55: truncateValues guard not fully lowered: %r" % ta[:300])
     assg = "static void assign_guard(const struct VT2 *src, const struct VT2 *dst, _Bool nn, _Bool *removed)\n{\n%s\n}\n" % ta
+    # ---- the value of an assignment expression (setTokenValue, parent `=` and tok its right operand)
+    s = [mo for mo in re.finditer(r'if \(Token::simpleMatch\(parent, "[^"]*"\) && astIsRHS\(tok\)\)\s*\{', gm) if g.text[mo.start():mo.end()].startswith('if (Token::simpleMatch(parent, "=")')]
+    if len(s) != 1:
+        raise extract.ExtractError("setTokenValue: block for the right operand of `=` found %d times" % len(s))
+    ob = s[0].end() - 1
+    cb = extract.match_brace(g.text, ob, gm)
+    rege = extract.Located("lib/vf_settokenvalue.cpp", g.text[ob + 1:cb], g.start + ob + 1, g.start + cb, extract.read("lib/vf_settokenvalue.cpp"))
+    kb.add_located("ValueFlow::setTokenValue [value of an assignment expression]", rege, "region")
+    te, k = extract.apply_rules(extract.strip_comments(rege.text), extract.GENERIC + _common.VT_RULES + [
+        (r'const ValueType\s*\*\s*lhsType = parent->astOperand1\(\) \? parent->astOperand1\(\)->valueType\(\) : NULL\s*;', 'const struct VT2 *lhsType = dst;', 0, 1),
+        (r'\blhsType && lhsType->isIntegral\(\) && lhsType->pointer == 0', '(lhsType != NULL && lhsType->integral && lhsType->pointer == 0)', 0, 1),
+        (r'\btok->valueType\(\) && tok->valueType\(\)->isIntegral\(\) && tok->valueType\(\)->pointer == 0', '(src != NULL && src->integral && src->pointer == 0)', 0, 1),
+        (r'\bvalue\.isIntValue\(\)', 'value->isInt', 0, 1),
+        (r'\bvalue\.isSymbolicValue\(\)', 'value->isSymbolic', 0, 2),
+        (r'\bvalue\.isImpossible\(\)', '(value->kind == K_IMPOSSIBLE)', 0, 1),
+        (r'isValuePreservingConversion\(\*tok->valueType\(\), \*lhsType, false, settings\)', 'isValuePreservingConversion(src, lhsType, 0)', 0, 1),
+        (r'\bsetTokenValueCast\(parent, \*lhsType, value, settings\)\s*;', 'g_assign_mode = 2;', 0, 1),
+        (r'\bsetTokenValue\(parent, value, settings\)\s*;', 'g_assign_mode = 1;', 1, 2),
+        (r'\bif \(!value\.isUninitValue\(\)\)\s*return\s*;', '', 1, 1),
+    ], ID + ".assignexpr"); n += sum(c for _, c in k)
+    if re.search(r'tok->|parent|settings|std::|value\.', extract.mask(te)):
+        raise extract.ExtractError("K55: assignment-expression block not fully lowered: %r" % re.findall(r'[^\n]*(?:tok->|parent|settings|std::|value\.)[^\n]*', extract.mask(te))[:3])
+    asse = ("int g_assign_mode;   /* 0: nothing is handed on to `=`, 1: the value as it is, 2: the value converted to the type of the left operand (setTokenValueCast, K57) */\n"
+            "static void assign_expr(const struct VValue *value, const struct VT2 *src, const struct VT2 *dst)\n{\n%s\n}\n" % te)
     kb.rules_fired = n
-    text = _common.BASE + enums + PRELUDE + PRESERVES + helper + castg + assg
+    text = _common.BASE + enums + PRELUDE + PRESERVES + helper + castg + assg + asse
     extract.residue_scan(text, ID)
     kb.ctext = text + HARNESS
     kb.job("helper", "h_helper", replay="note", note="all sizes (1, 2, 4, 8, unknown), signs, pointer / integral flags; every value of the source type")
     kb.job("helper.contract", "h_helper", enforce="isValuePreservingConversion", replay="note", note="the closed-form contract used by the two callers")
     kb.job("cast", "h_cast_guard", replace=["isValuePreservingConversion"], replay="note")
     kb.job("assign", "h_assign_guard", replace=["isValuePreservingConversion"], replay="note")
+    kb.job("assignexpr", "h_assign_expr", replace=["isValuePreservingConversion"], replay="note", note="loop-free region: every value kind, every pair of operand types")
     kb.job("cover", "h_cover", kind="cover")
     kb.assumptions += ["ValueType::getSizeOf is an oracle (1, 2, 4, 8 bytes, 0 = unknown), isIntegral a flag; only plain char has an unknown sign",
                        "`nonNegative` (a scan of the value list for `never <= -1`) is an oracle flag: x >= 0 when it is set",
